@@ -7,6 +7,7 @@ sorted as `Instruction.__init__` leaves them; empty controls = `None`; `dur` an 
 numerator).
 
 * `comm g=A|B`                                              →  `ok 0|1`    (`commutation_rules`)
+* `scnames`                                                  →  `ok X,Y,…` (`patchNames`)
 * `share g=A|B`                                             →  `ok 0|1`    (`not qubit_constraint`)
 * `sched method=ASAP|ALAP perm=0|1 gates=… [shuf=π;π;…] [fix=0|1]` (`fix`: repaired conflict-edge recording) →
   `ok used=<#shuffles> cycles=a,b;c;… idx=… starts=… edges=i>j,…`
@@ -45,6 +46,7 @@ def step (line : String) : String :=
     match (field? fs "g").bind parseGates with
     | some [a, b] => b2s (commRules a b)
     | _ => "bad-op"
+  | some "scnames" => "ok " ++ ",".intercalate patchNames
   | some "share" =>
     match (field? fs "g").bind parseGates with
     | some [a, b] => b2s (share a b)
